@@ -141,7 +141,7 @@ func lazySection(w *vhlib.Writer, o vhlib.Opts, rng *vhlib.Rng, rounds int) {
 		if c.Procs > 1 && rng.Intn(4) == 0 {
 			c.Busy = rng.Range(1, 3)
 		}
-		variant := i % 4
+		variant := lockFreeVariants[i%len(lockFreeVariants)]
 		runtime.GOMAXPROCS(c.Procs)
 		stop := startBusy(c.Busy)
 		type result struct {
